@@ -410,6 +410,34 @@ func main() {
 		refs[i] = ref{r1.Events, r1.L2Calls, r1.L2Methods}
 	}
 	run.Set("reference_traces_stable", true)
+	// fault-free baseline of fsck findings per shape (orphans that exist without any fault are reported once,
+	// under mode "none", and are not attributed to every fault plan again)
+	baseOrphans := make([]map[string]bool, len(all))
+	for i := range all {
+		baseOrphans[i] = map[string]bool{}
+		b := filepath.Join(root, fmt.Sprintf("base%d", i))
+		o, _ := runSelf(b, 5*time.Minute, "child", all[i].Name, `{"Mode":"none","Retry":true}`)
+		var cr childResult
+		var vr verifyResult
+		vo, _ := runSelf(b, 5*time.Minute, "verify", all[i].Name, "130")
+		os.RemoveAll(b)
+		if !extract(o, "@@RESULT", &cr) || !extract(vo, "@@VERIFY", &vr) || !cr.Committed {
+			fmt.Fprintf(os.Stderr, "HARNESS FAILURE: fault-free run of shape %s failed\n", all[i].Name)
+			os.Exit(2)
+		}
+		run.Add("evaluations", 1)
+		c := caseOut{shape: i, site: "fault-free", pl: plan{Mode: "none"}, child: &cr, vr: &vr}
+		judgeBase = nil
+		judge(run, prop, all[i], &c)
+		for n, sr := range vr.Fsck.Stores {
+			for _, ob := range sr.OrphanBlobs {
+				baseOrphans[i][n+"/"+ob] = true
+			}
+			for _, oh := range sr.OrphanHandles {
+				baseOrphans[i][n+"/h/"+oh] = true
+			}
+		}
+	}
 
 	// 2. plans
 	var cases []caseOut
@@ -521,6 +549,7 @@ func main() {
 		if c.crashed || (c.child != nil && c.child.Fired) {
 			fired++
 		}
+		judgeBase = baseOrphans[c.shape]
 		o := judge(run, prop, s, c)
 		outcomes[o]++
 		if ci%97 == 0 {
@@ -537,6 +566,23 @@ func main() {
 }
 
 var sigShapes = map[string][]string{}
+
+// judgeBase: orphans that the fault-free run of the same shape already leaves behind.
+var judgeBase map[string]bool
+
+func newOnly(store string, ids []string, handle bool) []string {
+	var r []string
+	for _, id := range ids {
+		k := store + "/" + id
+		if handle {
+			k = store + "/h/" + id
+		}
+		if !judgeBase[k] {
+			r = append(r, id)
+		}
+	}
+	return r
+}
 
 func appendUniq(a []string, x string) []string {
 	for _, y := range a {
@@ -676,8 +722,8 @@ func judge(run *ev.Run, prop string, s shape, c *caseOut) string {
 				viol("logs-left-after-recovery", fmt.Sprintf("translogs still holds %v %v after ages passed and %d new transactions", f.LogFiles, f.PlgFiles, 6))
 			}
 			for n, sr := range f.Stores {
-				if len(sr.OrphanBlobs) > 0 {
-					viol("staged-blobs-left-after-recovery", fmt.Sprintf("store %s: blobs nothing references: %v", n, sr.OrphanBlobs))
+				if ob := newOnly(n, sr.OrphanBlobs, false); len(ob) > 0 {
+					viol("staged-blobs-left-after-recovery", fmt.Sprintf("store %s: blobs nothing references: %v", n, ob))
 				}
 				if len(sr.DirtyHandles) > 0 {
 					viol("handles-left-dirty-after-recovery", fmt.Sprintf("store %s: %v", n, sr.DirtyHandles))
@@ -754,11 +800,11 @@ func judge(run *ev.Run, prop string, s shape, c *caseOut) string {
 			viol("logs-left", fmt.Sprintf("%v %v", f.LogFiles, f.PlgFiles))
 		}
 		for n, sr := range f.Stores {
-			if len(sr.OrphanBlobs) > 0 {
-				viol("orphan-blobs", fmt.Sprintf("store %s: %v", n, sr.OrphanBlobs))
+			if ob := newOnly(n, sr.OrphanBlobs, false); len(ob) > 0 {
+				viol("orphan-blobs", fmt.Sprintf("store %s: blob files nothing references: %v", n, ob))
 			}
-			if len(sr.OrphanHandles) > 0 {
-				viol("orphan-registry-entries", fmt.Sprintf("store %s: %v", n, sr.OrphanHandles))
+			if oh := newOnly(n, sr.OrphanHandles, true); len(oh) > 0 {
+				viol("orphan-registry-entries", fmt.Sprintf("store %s: registry entries of unreachable nodes: %v", n, oh))
 			}
 		}
 	}
